@@ -83,6 +83,7 @@ func akeMutations(c *Ctx) []Mut {
 // C01: the key exchange authenticates the peer and both sides agree on the session
 func genC01(c *Ctx) {
 	c.Rep.Rule = "handshakes (query / refresh while encrypted / third party with its own key) in which AKE messages are damaged per field, replaced by out-of-range DH values, truncated, re-tagged, duplicated, replayed from another session, or re-signed by an impersonator advertising the victim's key; every step compared with the abstract machine; oracle: an encrypted conversation reports a peer key whose owner's genuine signature message it has received, equal SSID implies complementary highlight and mutual readability"
+	groupRangeCases(c)
 	// systematic part: every AKE message x every mutation x both orders
 	akeSweep(c, !c.Thorough(), func(with, without *sweepRun) {
 		s := with.s
